@@ -17,7 +17,7 @@ ASSUMPTIONS = [
   "so no alarm on a schedule an OS scheduler with blocking primitives cannot produce for ever)",
   "operations on objects only one thread touches (or that are only read) are merged into the preceding step (they commute with every other thread's operations)",
 ]
-OUTSIDE = ["more than 2 posters (quick) / 3 posters (thorough), more than one post per poster", "cycles and deadlocks that need more than K steps (K per query in the evidence)",
+OUTSIDE = ["posts racing each other for the last free token slot (the full()-then-put() window at capacity; one full-queue scenario is included)", "more than 2 posters (quick) / 3 posters (thorough), more than one post per poster", "cycles and deadlocks that need more than K steps (K per query in the evidence)",
            "real capacity 500 (capacity 3 is modelled; the cycle found on the unrepaired code does not involve the capacity)", "unfair schedules (excluded by the statement)"]
 EXPLANATION = ("Bounded model checking (z3/cvc5 portfolio on QF_BV) of the step machine translated from the real LockingDeque.append/appendleft, "
                "ActiveObject.post_fifo/post_lifo/run_event, HsmWithQueues.next_rtc: for every schedule up to K steps there is no state in which a poster "
@@ -32,9 +32,11 @@ def scenarios(tier):
   onep = dict(nposters=1, posts=(1,), capacity=3, ghost_order=False, pending=1)
   two = dict(nposters=2, posts=(1, 1), capacity=3, ghost_order=False)
   three = dict(nposters=3, posts=(1, 1, 1), capacity=3, ghost_order=False)
+  # a full queue (capacity 2, two events pending) with a post made by the object's own handler: posting to a full queue must not block either
+  full = dict(nposters=1, posts=(1,), capacity=2, pending=2, handler_post=True, ghost_order=False)
   if tier == "quick":
-    return [(one, 30, 30), (onep, 30, 30), (two, 22, 22)]
-  return [(one, 34, 34), (onep, 34, 34), (two, 32, 32), (three, 22, 22)]
+    return [(one, 30, 30), (onep, 30, 30), (two, 22, 22), (full, 26, 26)]
+  return [(one, 34, 34), (onep, 34, 34), (two, 32, 32), (three, 22, 22), (full, 32, 32)]
 
 
 def bounds(tier):
@@ -53,6 +55,8 @@ def specs(tier):
     out.append(dict(scenario=SCN, kwargs=kw, kind="reach", K=kd, pred="posters_done", timeout=to))
     out.append(dict(scenario=SCN, kwargs=kw, kind="deadlock", K=kd, pred="poster_open", timeout=to, replay="posting_replay"))
     out.append(dict(scenario=SCN, kwargs=kw, kind="lasso", K=kl, pred="poster_open", timeout=to, replay="posting_replay"))
+    if kw.get("handler_post"):
+      out.append(dict(scenario=SCN, kwargs=kw, kind="deadlock", K=kd, pred="consumer_stuck", timeout=to, replay="posting_replay"))
     if kw["nposters"] == 1:
       out.append(dict(scenario=SCN, kwargs=kw, kind="adequacy", K=kl, timeout=to))
   return out
@@ -70,6 +74,10 @@ def signature(spec, r):
     return ("fair-cycle:post-does-not-return",
             "a post_fifo/post_lifo call has not returned after %d rounds of a fair cycle on the real code (threads %s; inputs %s); schedule: %s" % (
               rep["loop_rounds_replayed"], where, r.get("inputs"), ops), bool(open_posters) and rep["loop_rounds_replayed"] > 0)
+  if spec.get("pred") == "consumer_stuck":
+    where = real["waiting_at"].get(str(npost))
+    return ("deadlock:object-thread-blocked-in-its-own-post", "the object's thread is blocked at %s inside a post made by its own handler; real objects: %s; schedule: %s" % (
+      where, real, r["trace"]), where is not None and tuple(where) != ("Q", "get"))
   return ("deadlock:poster-blocked",
           "no thread can move and poster(s) %s never returned; real objects: %s; schedule: %s" % (open_posters, real, r["trace"]), bool(open_posters))
 
